@@ -81,6 +81,18 @@ inductive Kind
 inductive ActKind | none | apply | apply0
   deriving DecidableEq, Repr, Inhabited
 
+/-- Action classes with a `match()` of their own (called by `normal< Rule >::match` instead of
+    `tao::pegtl::match`): `change_action`, `disable_action`, `enable_action`, contrib `limit_depth`
+    and `limit_bytes`. -/
+inductive Wrap
+  | none
+  | changeAction (fam : Nat)
+  | disableAction
+  | enableAction
+  | limitDepth (n : Nat)
+  | limitBytes (n : Nat)
+  deriving DecidableEq, Repr, Inhabited
+
 /-- What the action class template does for one rule.  The harness generates the
     C++ specialisation from the same record: a `bool` action vetoes when
     `(b + 2*e + i) % vetoMod = 0`, an action throws when `(b + e + i) % throwMod = 0`
@@ -91,6 +103,7 @@ structure ActionSpec where
   vetoMod  : Nat := 0
   throwMod : Nat := 0
   throwStd : Bool := false
+  wrap     : Wrap := .none
   deriving DecidableEq, Repr, Inhabited
 
 structure Node where
